@@ -20,7 +20,7 @@ func init() {
 	registry["C16"] = &propSpec{Rules: []ruleFn{ruleC16Ctl, ruleC16Repl}, Explanation: "tbd", NotDecided: "tbd"}
 	registry["C18"] = &propSpec{Rules: []ruleFn{ruleC18, ruleCanAdd("C18-ADMIT"), ruleC04Promote("C18-MODE")}, Explanation: "tbd", NotDecided: "tbd"}
 	registry["C19"] = &propSpec{Rules: []ruleFn{ruleC19Promote("C19-PROMOTE"), ruleC19Clone}, Explanation: "tbd", NotDecided: "tbd"}
-	registry["C14"] = &propSpec{Rules: []ruleFn{ruleC14Lock, ruleC14Wrap, ruleC17Matrix, ruleC17Srv}, Explanation: "tbd", NotDecided: "tbd"}
+	registry["C14"] = &propSpec{Rules: []ruleFn{ruleC14Lock, ruleC14Block, ruleC14Fatal, ruleC14Idx, ruleC14Wrap, ruleC17Matrix, ruleC17Srv}, Explanation: "tbd", NotDecided: "tbd"}
 	registry["C06"] = &propSpec{Rules: []ruleFn{ruleC06Hole, ruleC06Snapstep}, Explanation: "tbd", NotDecided: "tbd"}
 	registry["C08"] = &propSpec{Rules: []ruleFn{ruleC08Atomic, ruleC08Err, ruleC08Commit, ruleC08Dur}, Explanation: "tbd", NotDecided: "tbd"}
 	registry["C10"] = &propSpec{Rules: []ruleFn{ruleC10, ruleC04Verify("C10-PROMOTE-COPY")}, Explanation: "tbd", NotDecided: "tbd"}
